@@ -78,6 +78,10 @@ type c12Case struct {
 	BarrierResp string   `json:"barrier_resp"`
 	Msgs        []wsmsg  `json:"msgs"`
 	ExpectMsgs  int      `json:"expect_msgs"`
+	// how many deliveries the model predicts: the executor waits (briefly) for that many
+	// handler invocations before it reads the log, so that a slow goroutine is not
+	// attributed to the next case
+	ExpectDeliveries int `json:"expect_deliveries"`
 	// fake servers facing a real client
 	Req      string   `json:"req"`
 	ReadN    int      `json:"read_n"`
@@ -186,6 +190,24 @@ func (s *srv) drain() []string {
 	}
 	s.log = nil
 	return out
+}
+
+func (s *srv) waitDeliveries(n int, max time.Duration) {
+	deadline := time.Now().Add(max)
+	for {
+		s.mu.Lock()
+		k := 0
+		for _, b := range s.log {
+			if !bytes.HasPrefix(b, healthPrefix) {
+				k++
+			}
+		}
+		s.mu.Unlock()
+		if k >= n || time.Now().After(deadline) {
+			return
+		}
+		time.Sleep(time.Millisecond)
+	}
 }
 
 func (s *srv) setScript(items []item) {
@@ -707,6 +729,7 @@ func opRawStream(c *c12Case, o *c12Obs) {
 	o.EOF = gotEOF
 	h := s.health()
 	o.Healthy = &h
+	s.waitDeliveries(c.ExpectDeliveries, 400*time.Millisecond)
 	time.Sleep(10 * time.Millisecond)
 	o.Delivered = s.drain()
 	rmu.Lock()
@@ -799,9 +822,11 @@ func opRawUDP(c *c12Case, o *c12Obs) {
 		}
 		o.BarrierOK = &ok
 	}
-	time.Sleep(15 * time.Millisecond)
+	time.Sleep(5 * time.Millisecond)
 	h := s.health()
 	o.Healthy = &h
+	s.waitDeliveries(c.ExpectDeliveries, 400*time.Millisecond)
+	time.Sleep(10 * time.Millisecond)
 	mu.Lock()
 	o.Delivered = s.drain()
 	if o.RxD == nil {
@@ -858,6 +883,7 @@ func opRawWS(c *c12Case, o *c12Obs) {
 	}
 	h := s.health()
 	o.Healthy = &h
+	s.waitDeliveries(c.ExpectDeliveries, 400*time.Millisecond)
 	time.Sleep(10 * time.Millisecond)
 	o.Delivered = s.drain()
 }
@@ -909,6 +935,7 @@ func opRawHTTP(c *c12Case, o *c12Obs) {
 	}
 	h := s.health()
 	o.Healthy = &h
+	s.waitDeliveries(c.ExpectDeliveries, 400*time.Millisecond)
 	time.Sleep(10 * time.Millisecond)
 	o.Delivered = s.drain()
 }
